@@ -92,6 +92,11 @@ struct Dev {
     notify_fill: Option<(usize, u32)>,
     /// what happened: (bytes, claim, buffers outstanding when the notification arrived)
     notify_filled: Option<(usize, u32, u16)>,
+    /// like `notify_fill`, but the device does not wait for the notification: it polls the available
+    /// ring and fills the buffer the moment the index store makes it visible (flag mode only: fetching
+    /// moves `avail_event`, which would change the driver's notification decision)
+    store_fill: Option<(usize, u32)>,
+    post_seen_at_store: bool,
     /// `pos` at each receive-queue notification of the current call
     post_marks: Vec<u64>,
 }
@@ -192,7 +197,11 @@ impl Dev {
     fn on_notify(&mut self, queue: u16) {
         if queue == 0 {
             self.rx_notifies += 1;
-            self.post_marks.push(self.pos);
+            if self.post_seen_at_store {
+                self.post_seen_at_store = false;
+            } else {
+                self.post_marks.push(self.pos);
+            }
             self.check_rx("at notification");
             if let Some((n, cl)) = self.notify_fill.take() {
                 let rx = self.rx_outstanding();
@@ -202,6 +211,27 @@ impl Dev {
             }
         } else if queue == 1 && self.tx_on_notify {
             self.serve_tx();
+        }
+    }
+
+    fn on_store(&mut self) {
+        if let Some((n, cl)) = self.store_fill {
+            let visible = match &self.rx {
+                Some(q) => q.pending().map(|p| p > 0).unwrap_or(false),
+                None => false,
+            };
+            if visible {
+                self.store_fill = None;
+                self.notify_fill = None;
+                // the post is observed here, before the device writes; the notification that follows
+                // announces the same post
+                self.post_marks.push(self.pos);
+                self.post_seen_at_store = true;
+                let rx = self.rx_outstanding();
+                if self.fill(n, cl) {
+                    self.notify_filled = Some((n, cl, rx));
+                }
+            }
         }
     }
 
@@ -248,6 +278,15 @@ fn spin_hook() {
     let d = DEV.with(|d| d.borrow().clone());
     if let Some(d) = d {
         d.borrow_mut().on_spin();
+    }
+}
+
+fn store_hook() {
+    let d = DEV.with(|d| d.borrow().clone());
+    if let Some(d) = d {
+        if let Ok(mut d) = d.try_borrow_mut() {
+            d.on_store();
+        }
     }
 }
 
@@ -453,6 +492,8 @@ fn one_case(ctx: &Ctx, stream: &str, idx: usize, id: String, hostile: bool) -> C
         rx_notifies: 0,
         notify_fill: None,
         notify_filled: None,
+        store_fill: None,
+        post_seen_at_store: false,
         post_marks: vec![],
     }));
     DEV.with(|d| *d.borrow_mut() = Some(dev.clone()));
@@ -549,12 +590,17 @@ fn one_case(ctx: &Ctx, stream: &str, idx: usize, id: String, hostile: bool) -> C
                     let mut d = sim.dev.borrow_mut();
                     let n = chunk_len(&mut rng, d.cap);
                     d.notify_fill = Some((n, n as u32));
+                    if !d.event_idx && rng.chance(1, 2) {
+                        // …or even earlier: at the index store that makes the buffer visible
+                        d.store_fill = Some((n, n as u32));
+                    }
                     d.raise_isr = false;
                 }
                 let r = guarded(|| con.recv(pop));
                 let nf = {
                     let mut d = sim.dev.borrow_mut();
                     d.notify_fill = None;
+                    d.store_fill = None;
                     d.notify_filled.take()
                 };
                 if let Ok(Ok(v)) = &r {
@@ -608,12 +654,16 @@ fn one_case(ctx: &Ctx, stream: &str, idx: usize, id: String, hostile: bool) -> C
                     let mut d = sim.dev.borrow_mut();
                     let m = chunk_len(&mut rng, d.cap);
                     d.notify_fill = Some((m, m as u32));
+                    if !d.event_idx {
+                        d.store_fill = Some((m, m as u32));
+                    }
                     d.raise_isr = false;
                 }
                 let r = guarded(|| Read::read(&mut con, &mut buf));
                 if armed {
                     let mut d = sim.dev.borrow_mut();
                     d.notify_fill = None;
+                    d.store_fill = None;
                     if d.notify_filled.take().is_some() {
                         sim.case.tag("device_filled_inside_read");
                     }
@@ -1053,11 +1103,13 @@ fn consume_op(sim: &mut Sim, con: &mut Con, kk: usize, rng: &mut Rng, hostile: b
 
 pub fn run(ctx: &Ctx) -> (Vec<Case>, String, bool, BTreeMap<String, String>) {
     virtio_drivers::verif_hooks::set_spin_hook(Some(spin_hook));
+    virtio_drivers::verif_hooks::set_store_hook(Some(store_hook));
     let n_honest = ctx.tier.pick(600, 8000);
     let n_hostile = ctx.tier.pick(200, 2000);
     let mut cases = crate::runner::par_cases(ctx, "C15", "walk", n_honest, |i, id| one_case(ctx, "walk", i, id, false));
     cases.extend(crate::runner::par_cases(ctx, "C15", "hostile", n_hostile, |i, id| one_case(ctx, "hostile", i, id, true)));
     virtio_drivers::verif_hooks::set_spin_hook(None);
+    virtio_drivers::verif_hooks::set_store_hook(None);
     let stalls = cases.iter().filter(|c| c.tags.iter().any(|t| t.starts_with("observed:"))).count();
     let mut extra = BTreeMap::new();
     extra.insert(
